@@ -130,13 +130,31 @@ func cmdVC(args []string) {
 	for _, n := range c.Notes {
 		fmt.Println("NOTE:", n)
 	}
-	res := vc.SolveAll(all, vc.SolverOpts{TimeoutSec: *timeout, FirstTimeout: 3, Workers: 16, WantModel: *model})
+	var plain, reach []*vc.Obligation
+	for _, ob := range all {
+		if ob.Reach {
+			reach = append(reach, ob)
+		} else {
+			plain = append(plain, ob)
+		}
+	}
+	res := vc.SolveAll(plain, vc.SolverOpts{TimeoutSec: *timeout, FirstTimeout: 3, Workers: 16, WantModel: *model})
+	for ob, r := range vc.SolveAll(reach, vc.SolverOpts{TimeoutSec: 2, FirstTimeout: 2, Workers: 16, Single: true}) {
+		if r.Status == "unsat" && ob.PreQuery != "" {
+			p := &vc.Obligation{Name: ob.Name + "/before", Kind: "reach", Query: ob.PreQuery, Cover: true}
+			if vc.SolveAll([]*vc.Obligation{p}, vc.SolverOpts{TimeoutSec: 2, FirstTimeout: 2, Workers: 1, Single: true})[p].Status == "unsat" {
+				r.Status = "dead"
+			}
+		}
+		res[ob] = r
+	}
 	type agg struct {
 		name   string
 		n      int
 		bad    []*vc.Obligation
 		status map[string]int
 		secs   float64
+		reach, reachable bool
 	}
 	byName := map[string]*agg{}
 	var names []string
@@ -155,6 +173,12 @@ func cmdVC(args []string) {
 		if ob.Cover {
 			ok = r.Status != "unsat"
 		}
+		if ob.Reach {
+			a.reach = true
+			if r.Status != "unsat" {
+				a.reachable = true
+			}
+		}
 		if !ok {
 			a.bad = append(a.bad, ob)
 		}
@@ -167,6 +191,9 @@ func cmdVC(args []string) {
 	nbad := 0
 	for _, n := range names {
 		a := byName[n]
+		if a.reach && a.reachable {
+			a.bad = nil
+		}
 		if len(a.bad) == 0 {
 			if *verbose {
 				fmt.Printf("  ok   %-90s x%d %.2fs\n", n, a.n, a.secs)
